@@ -70,7 +70,9 @@ def gen(rng, idx, tier):
     cplx = cls in CPLX_ONLY or (cls not in REAL_ONLY and rng.random() < 0.4)
     sparse = None
     if solver in ("splu", "cg_sor", "cg_ilu", "auto_sparse", "cg_gmg", "cg_gmg2"):
-        sparse = str(rng.choice(["csc", "csr"])) if solver not in ("cg_ilu", "splu") else "csc"
+        sparse = str(rng.choice(["csc", "csr", "csc_full"])) if solver not in ("cg_ilu", "splu") else str(rng.choice(["csc", "csc_full"]))
+        if solver in ("cg_gmg", "cg_gmg2") and sparse == "csc_full":
+            sparse = "csc"
     elif solver in ("cg_none", "cg_jacobi", "diag") and rng.random() < 0.5:
         sparse = "csc"
     n = int(rng.integers(2, 13)) if sparse is None else int(rng.integers(3, 31))
